@@ -14,6 +14,21 @@ TV = 'translation_validation'
 
 # id -> (category, text, design_ref, level_note, technique)
 CLAIMS = {
+    'C20': (MC,
+            'FdlTransforms states the clauses as predicates over (pre, post) on the heap machine -- SameMeaning '
+            '(identical built graphs, with an unconfigured Partial and its bare callable identified), Equiv for the '
+            'default-related transformations, AllExplicit and idempotence for materialize_defaults, preserved '
+            'serializability -- without prescribing the post-state; TLC checks on every configuration in the bound '
+            'that a reference materialize_defaults satisfies all of them (satisfiable, non-vacuous). Each real '
+            'transformation (nine call forms) is applied to every generated heap and to random heaps with '
+            'arguments explicitly at their defaults; the recorded (pre, post, post-of-second-application, real == '
+            'verdict, real serializability, real built graphs, input untouched) is judged by Trace_C20. Seven '
+            'scenarios cover positional-only defaults, shared mutable defaults, dataclass default factories, '
+            'convert_dataclasses_to_configs, auto_config.inline, unset TaggedValues and Partials in containers.',
+            'DESIGN.md §5 C20',
+            'Trusted: TLC, harness projection (built functools.partial objects are projected through their '
+            'func/keywords). auto_config.inline and convert_dataclasses_to_configs are exercised by scenarios only.',
+            'TLA+ clause predicates judged on recorded (pre, post) pairs; exhaustive shapes from TLC'),
     'C06': (MC,
             'FdlEq states the property (level A, Equiv: canonical forms coincide after making defaults explicit and '
             'forgetting tags, history and dict order) and transcribes fiddle\'s comparison algorithm (level B, '
